@@ -284,7 +284,10 @@ def run_property(pid, tier, seed):
         if files:
             os.makedirs(os.path.join(ROOT, "replays"), exist_ok=True)
             for f in files:
-                dst = os.path.join(ROOT, "replays", os.path.basename(f))
+                base = os.path.basename(f)
+                if base.endswith(".json"):
+                    base = base[:-5] + "-" + pr["spec"]["name"] + ".json"
+                dst = os.path.join(ROOT, "replays", base)
                 shutil.copyfile(f, dst)
                 kind, sub = "?", "?"
                 try:
